@@ -10,6 +10,8 @@ type builder struct {
 	doc             *XMLDoc
 	dict            *DataDictionary
 	componentByName map[string]*XMLComponent
+	// names of the components whose build is in progress.
+	building map[string]bool
 }
 
 func (b *builder) build(doc *XMLDoc) (*DataDictionary, error) {
@@ -30,6 +32,7 @@ func (b *builder) build(doc *XMLDoc) (*DataDictionary, error) {
 	}
 
 	b.componentByName = make(map[string]*XMLComponent)
+	b.building = make(map[string]bool)
 	for _, c := range doc.Components {
 		b.componentByName[c.Name] = c
 	}
@@ -84,6 +87,12 @@ func (b builder) findOrBuildComponentType(xmlMember *XMLComponentMember) (*Compo
 }
 
 func (b builder) buildComponentType(xmlComponent *XMLComponent) (*ComponentType, error) {
+	if b.building[xmlComponent.Name] {
+		return nil, newCircularComponent(xmlComponent.Name)
+	}
+	b.building[xmlComponent.Name] = true
+	defer delete(b.building, xmlComponent.Name)
+
 	var parts []MessagePart
 
 	for _, member := range xmlComponent.Members {
@@ -240,6 +249,10 @@ func buildFieldType(xmlField *XMLField) *FieldType {
 
 func newUnknownComponent(name string) error {
 	return fmt.Errorf("unknown component %v", name)
+}
+
+func newCircularComponent(name string) error {
+	return fmt.Errorf("circular reference to component %v", name)
 }
 
 func newUnknownField(name string) error {
